@@ -110,6 +110,7 @@ type Profile struct {
 	FlatCycle int  // >0: add a crafted cycle of that many messages each flattening the next (negative: with a chain leading into it)
 	Services  int  // percent chance that a generated file gets services / topics (addServices; C15)
 	FlatDeep  int  // >0: add a crafted chain of that many nested flatten levels, several properties of differing kinds at every level
+	FlatClash int  // >0: add crafted objects whose client property names clash through flattening (variant 1..4, see addFlattenClash)
 	OddPkg    bool // some package names APIFromImage cannot file: no version part, two version parts, two parts after the version
 }
 
@@ -235,6 +236,10 @@ func Generate(r *vh.Rand, p Profile, deps []*descriptorpb.FileDescriptorProto) *
 	if p.FlatDeep > 0 {
 		addFlattenChain(c.Gen[0], p.FlatDeep)
 		g.tag(fmt.Sprintf("flatten-chain-crafted-%d", p.FlatDeep))
+	}
+	if p.FlatClash > 0 {
+		addFlattenClash(c.Gen[0], p.FlatClash)
+		g.tag(fmt.Sprintf("flatten-name-clash-crafted-%d", p.FlatClash))
 	}
 	if p.FlatCycle != 0 {
 		n, lead := p.FlatCycle, false
@@ -1888,6 +1893,52 @@ func addFlattenChain(fd *descriptorpb.FileDescriptorProto, n int) {
 				scalar(fmt.Sprintf("t%d", i), 4, descriptorpb.FieldDescriptorProto_TYPE_STRING))
 		}
 		fd.MessageType = append(fd.MessageType, m)
+	}
+}
+
+// addFlattenClash appends objects whose CLIENT property names (own properties plus those hoisted from
+// flattened object fields, recursively) use one JSON name twice although every object's own names are
+// distinct. The reader must refuse them (checkClientPropertyNames, run once a build is complete).
+//
+//	1: a flattened child against a sibling: FcA { string id; FcB b [flatten] } FcB { string id }
+//	2: two flattened children against each other: FcA { FcB b [flatten]; FcC c [flatten] } FcB { string id } FcC { int64 id }
+//	3: two levels down: FcA { string deep; FcB b [flatten] } FcB { string mid; FcC c [flatten] } FcC { bool deep }
+//	4: the flattened object is still being built when the flattening one is finished:
+//	   FcB { FcA child; string x } FcA { FcB b [flatten]; string x }, FcB declared (and read) first
+func addFlattenClash(fd *descriptorpb.FileDescriptorProto, variant int) {
+	opt := descriptorpb.FieldDescriptorProto_LABEL_OPTIONAL.Enum()
+	scalar := func(name string, num int32, t descriptorpb.FieldDescriptorProto_Type) *descriptorpb.FieldDescriptorProto {
+		return &descriptorpb.FieldDescriptorProto{Name: proto.String(name), Number: proto.Int32(num), Label: opt, Type: t.Enum()}
+	}
+	ref := func(name string, num int32, target string, flatten bool) *descriptorpb.FieldDescriptorProto {
+		f := &descriptorpb.FieldDescriptorProto{Name: proto.String(name), Number: proto.Int32(num), Label: opt,
+			Type: descriptorpb.FieldDescriptorProto_TYPE_MESSAGE.Enum(), TypeName: proto.String("." + fd.GetPackage() + "." + target)}
+		if flatten {
+			fo := &descriptorpb.FieldOptions{}
+			proto.SetExtension(fo, ext_j5pb.E_Field, &ext_j5pb.FieldOptions{Type: &ext_j5pb.FieldOptions_Object{Object: &ext_j5pb.ObjectField{Flatten: true}}})
+			f.Options = fo
+		}
+		return f
+	}
+	msg := func(name string, fields ...*descriptorpb.FieldDescriptorProto) {
+		fd.MessageType = append(fd.MessageType, &descriptorpb.DescriptorProto{Name: proto.String(name), Field: fields})
+	}
+	str, i64, bl := descriptorpb.FieldDescriptorProto_TYPE_STRING, descriptorpb.FieldDescriptorProto_TYPE_INT64, descriptorpb.FieldDescriptorProto_TYPE_BOOL
+	switch variant {
+	case 1:
+		msg("FcA", scalar("id", 1, str), ref("b", 2, "FcB", true))
+		msg("FcB", scalar("id", 1, str))
+	case 2:
+		msg("FcA", ref("b", 1, "FcB", true), ref("c", 2, "FcC", true))
+		msg("FcB", scalar("id", 1, str))
+		msg("FcC", scalar("id", 1, i64))
+	case 3:
+		msg("FcA", scalar("deep", 1, str), ref("b", 2, "FcB", true))
+		msg("FcB", scalar("mid", 1, str), ref("c", 2, "FcC", true))
+		msg("FcC", scalar("deep", 1, bl))
+	default:
+		msg("FcB", ref("child", 1, "FcA", false), scalar("x", 2, str))
+		msg("FcA", ref("b", 1, "FcB", true), scalar("x", 2, str))
 	}
 }
 
